@@ -21,6 +21,11 @@ them.
 
 Knobs (all optional):
     ns          'none' | 'xhtml'   every element un-namespaced / in the XHTML namespace
+                'mixed'            every element either un-namespaced or XHTML, mostly as its parent,
+                                   sometimes the other one; no START_NS events (builder-style streams):
+                                   the flattener has to make up `xmlns="…"` / `xmlns=""` at every
+                                   change, and with few tags the same start tag recurs on both sides
+                                   of such a scope boundary
                 'heavy'            several URIs, prefixes and START_NS/END_NS events — the
                                    namespace-heavy part of C09's quantifier; OFF by default and
                                    refused unless allow_heavy=True (NamespaceFlattener belongs to
@@ -102,6 +107,8 @@ class Gen(object):
         self.ns = kw.get('ns', 'none')
         if self.ns == 'heavy' and not kw.get('allow_heavy'):
             raise ValueError("namespace-heavy streams are switched off (work package xml owns NamespaceFlattener)")
+        self.nspool = ['', XHTML] if self.ns == 'mixed' else self.NSPOOL
+        self.ns_flip = kw.get('ns_flip', 0.45)
         self.ns_events = kw.get('ns_events', False)
         self.max_nodes = kw.get('max_nodes', 14)
         self.max_depth = kw.get('max_depth', 4)
@@ -152,7 +159,7 @@ class Gen(object):
     NSPOOL = ['', XHTML, 'urn:a', 'urn:b']
 
     def qn(self, local):
-        if self.ns == 'heavy':
+        if self.ns in ('heavy', 'mixed'):
             return [self.ns_stack[-1] if getattr(self, 'ns_stack', None) else '', local]
         return [XHTML if self.ns == 'xhtml' else '', local]
 
@@ -205,18 +212,18 @@ class Gen(object):
             # script/style in a foreign namespace or under a non-empty XHTML prefix is the known finding
             # C09-foreign-ns-script (raw for one stage of the html pipeline, not for the other)
             tag = 'div'
-        if self.ns == 'heavy':
+        if self.ns in ('heavy', 'mixed'):
             # namespace of this element: mostly its parent's, else another one of the pool (un-namespaced
             # included); with ns_events a changed namespace is announced by START_NS/END_NS around the
             # element as a parser would, without them the flattener has to make the declaration up
             if not hasattr(self, 'ns_stack'):
-                self.ns_stack = [rng.choice(self.NSPOOL)]
+                self.ns_stack = [rng.choice(self.nspool)]
                 parent = None
             else:
                 parent = self.ns_stack[-1]
-            cur = parent if (parent is not None and rng.random() < 0.55) else rng.choice(self.NSPOOL)
+            cur = parent if (parent is not None and rng.random() < 1 - self.ns_flip) else rng.choice(self.nspool)
             self.ns_stack.append(cur)
-            if self.ns_events and cur and (cur != parent or rng.random() < 0.15):
+            if self.ns == 'heavy' and self.ns_events and cur and (cur != parent or rng.random() < 0.15):
                 heavy_wrap = rng.choice(['', '', 'p', 'q'])
         ev = [['S', self.qn(tag), self.attrs(tag)]]
         if heavy_wrap is not None:
@@ -230,7 +237,7 @@ class Gen(object):
         else:
             ev.extend(self.children(depth + 1))
         ev.append(['E', self.qn(tag)])
-        if self.ns == 'heavy':
+        if self.ns in ('heavy', 'mixed'):
             if heavy_wrap is not None:
                 ev.append(['ENS', heavy_wrap])
             self.ns_stack.pop()
@@ -297,7 +304,11 @@ DOCTYPES = [['html', '-//W3C//DTD HTML 4.01//EN', 'http://www.w3.org/TR/html4/st
             ['html', None, None],
             ['html', '-//W3C//DTD XHTML 1.0 Strict//EN', 'http://www.w3.org/TR/xhtml1/DTD/xhtml1-strict.dtd'],
             ['html', None, 'about:legacy-compat'],
-            ['svg', '-//W3C//DTD SVG 1.1//EN', None]]
+            ['svg', '-//W3C//DTD SVG 1.1//EN', None],
+            # a system identifier holding a double quote is delimited by single quotes (each serializer has its own copy
+            # of that branch)
+            ['html', None, 'a"b.dtd'],
+            ['html', '-//W3C//DTD XHTML 1.0 Strict//EN', 'q"uote.dtd']]
 
 
 def rand_doctype(rng):
